@@ -36,6 +36,8 @@ enum Op {
     Update(usize),
     /// an update that leaves the value unchanged: counter increment(0) / absolute(current), gauge set(same), histogram: n/a
     Touch(usize),
+    /// registration without any update (the handle is looked up or created, nothing is written): generation 0
+    Register(usize),
     Advance(u64),
     Observe(usize),
     ObserveAll,
@@ -47,6 +49,8 @@ fn alphabet() -> Vec<Op> {
     }
     a.push(Op::Touch(0));
     a.push(Op::Touch(3));
+    a.push(Op::Register(0));
+    a.push(Op::Register(2));
     for d in [1, T - 1, T, T + 1] {
         a.push(Op::Advance(d));
     }
@@ -201,6 +205,16 @@ fn direct(ctx: &Ctx, res: &mut PartResult, depth: usize, mask_i: usize, timeout:
                     let m = &mut ms[mi];
                     m.exists = true;
                     m.gen += 1;
+                }
+                Op::Register(mi) => {
+                    let (k, name) = METRICS[mi];
+                    let key = Key::from_name(name);
+                    match k {
+                        K::C => r.reg.get_or_create_counter(&key, |_| ()),
+                        K::G => unreachable!(),
+                        K::H => r.reg.get_or_create_histogram(&key, |_| ()),
+                    }
+                    ms[mi].exists = true;
                 }
                 Op::Advance(d) => {
                     r.mock.increment(d);
